@@ -11,9 +11,9 @@ LMAX = {"quick": 3, "thorough": 5}
 SHARDS = {"quick": 8, "thorough": 14}
 NDOC = {"quick": 300, "thorough": 20000}
 EXHAUSTIVE = {"quick": True, "thorough": True}
-RULE = ("two focus alphabets (short-form disambiguation: 10 kinds; id./placeholder/roman pages: 12 kinds) enumerated to length 4 (quick) / 5 (thorough); EXHAUSTIVE over all sequences of length <= L (L=3 quick, 5 thorough) over an alphabet of 21 "
+RULE = ("two focus alphabets (short-form disambiguation: 10 kinds; id./placeholder/roman/nominative pages: 14 kinds) enumerated to length 4 (quick) / 5 (thorough); EXHAUSTIVE over all sequences of length <= L (L=3 quick, 5 thorough) over an alphabet of 21 "
         "citation kinds, each kind a real object extracted by get_citations from a canonical snippet and "
-        "shallow-copied per use (distinct objects); plus random longer sequences over 43 kinds and every "
+        "shallow-copied per use (distinct objects); plus random longer sequences over 45 kinds and every "
         "list extracted from generated multi-case documents; oracle = structural checker (identity, order, "
         "disjointness, first element full, every full citation under exactly one resource, sharing iff "
         "independent keys equal, no unknown citations); non-trivial = sequence containing a full citation; "
@@ -68,6 +68,9 @@ def run_shard(spec, rec):
         check_seq(R.instantiate(protos, combo), combo, rec, resolve_citations)
         rec.count("focus_sequences")
         rec.nontrivial(combo)
+    for combo in R.long_lists(protos, random.Random(spec["seed"] + 31), 2):
+        check_seq(R.instantiate(protos, combo), combo, rec, resolve_citations)
+        rec.count("long_lists")
     # random longer sequences over the extended alphabet
     rng = random.Random(spec["seed"])
     allk = list(protos)
